@@ -141,13 +141,19 @@ def check_case(prop, sp, col, shard='corpus', cap=400):
         emit = Emit(prop, col, sp, flags, enc)
         r = run_encoder(prop, case, enc, emit, col, rk, rk_dv, rnd, cap)
         reach[enc] = r
+        if r is not None:
+            r['ctx'] = dict(emit.ctx)
     if prop == 'C14' and reach.get('FAST') is not None and reach.get('COMPLETE') is not None:
         f, c = reach['FAST'], reach['COMPLETE']
         if f['exhaustive'] and c['exhaustive'] and f['keys'] != c['keys']:
             only_c = c['keys'] - f['keys']
-            Emit(prop, col, sp, flags, 'FAST')(
+            em_ = Emit(prop, col, sp, flags, 'FAST')
+            em_.ctx = dict(f.get('ctx') or {})
+            em_(
                 'fast_differs_from_complete', {'only_fast': len(f['keys'] - c['keys']), 'only_complete': len(only_c)},
                 where={'linked_partial_only': not (f['keys'] - c['keys']) and common.linked_partial_only(
+                    sp, [x['assign'] for k in only_c for x in rk_dv.get(k, [{'assign': {}}])]),
+                       'linked_full_nonzero_only': not (f['keys'] - c['keys']) and common.linked_full_nonzero_only(
                     sp, [x['assign'] for k in only_c for x in rk_dv.get(k, [{'assign': {}}])])})
     nontrivial = len(rk_dv) >= 2
     if nontrivial:
@@ -187,6 +193,8 @@ def run_encoder(prop, case, enc, emit, col, rk, rk_dv, rnd, cap):
         emit.ctx = {'conn_enc': ','.join(sorted({type(d[0].encoder).__name__ for d in gp._conn_choice_data_map.values()}))}
     except Exception:  # noqa
         emit.ctx = {}
+    if enc == 'FAST':
+        emit.ctx['linked_forced_is_first'] = common.linked_forced_is_first(gp)
     dvobs = O.des_vars(gp, b)
     vectors, exhaustive = D.declared_space(gp, cap, rnd)
     sel_key_of = {v: k for k, v in b.sel.items()}
@@ -344,6 +352,8 @@ def run_encoder(prop, case, enc, emit, col, rk, rk_dv, rnd, cap):
             emit('fast_missing_architectures', {'n_missing': len(missing), 'n_ref': len(rk_dv),
                                                 'example_assign': a['assign'], 'example_conn': a['conn']},
                  where={'linked_partial_only': common.linked_partial_only(
+                     sp, [x['assign'] for k in missing for x in rk_dv[k]]),
+                        'linked_full_nonzero_only': common.linked_full_nonzero_only(
                      sp, [x['assign'] for k in missing for x in rk_dv[k]])})
         # a vector that is valid on a fresh processor is returned unchanged by the used one
         b2 = case.rebuild()
